@@ -44,3 +44,8 @@ if __name__ == '__main__':
         print(json.dumps(res)); sys.stdout.flush()
         out.append(res)
     print('detected %d / %d' % (sum(1 for r in out if r['detected']), len(out)))
+    # keep a record of the latest result per seeded change (development record, not evidence)
+    rp = os.path.join(ROOT, 'seeded', 'results.json')
+    allr = json.load(open(rp)) if os.path.exists(rp) else {}
+    for r in out: allr[r['id']] = r
+    json.dump(allr, open(rp, 'w'), indent=1, sort_keys=True)
